@@ -330,7 +330,7 @@ static void scenario(struct scen* s) {
       long rq = va.requests;
       va_fault_mode = mode;
       va_fault_k = rq + k;
-      alarm(10);
+      alarm(300);
       const char* ret = run_op(s, &res);
       alarm(0);
       va_fault_mode = VA_NONE;
